@@ -26,7 +26,6 @@ Python never computes an expected value: it runs the tools and moves JSON.
 import json
 import os
 import random
-import re
 import shutil
 import time
 
